@@ -110,7 +110,7 @@ func c09FnJob(name string, kinds []string) c09Job {
 }
 
 func c09TxtJob(formula, class string) c09Job {
-	return c09Job{Op: "txt " + hx(formula), Formula: formula, Class: "txt/" + class, Ident: "txt/" + class}
+	return c09Job{Op: "txt " + hx(formula), Formula: formula, Class: "txt/" + class, Ident: "txt"}
 }
 
 func c09JobOfLine(line string) (c09Job, bool) {
@@ -207,6 +207,7 @@ func c09WorkerMain() {
 	}()
 	in := bufio.NewReaderSize(os.Stdin, 1<<20)
 	out := os.Stdout
+	out0 := out
 	f := c09Fixture()
 	evalOnce := func(formula string) (res string) {
 		defer func() {
@@ -233,6 +234,17 @@ func c09WorkerMain() {
 		formula := unhx(w[2])
 		c09JobIdx.Store(idx)
 		t0 := time.Now()
+		if strings.HasPrefix(formula, "cyc ") {
+			out := "bad-op"
+			if M, e, cells, ok := c09ParseCyc(strings.Fields(formula)); ok {
+				c09JobCPU.Store(c09CPUNanos())
+				c09JobStart.Store(t0.UnixNano())
+				out = c09CycEval(M, e, cells)
+				c09JobStart.Store(0)
+			}
+			fmt.Fprintf(out0, "R %d %s 1 1 %d\n", idx, hx(out), time.Since(t0).Microseconds())
+			continue
+		}
 		status, det, pure := "", 1, 1
 		if err := f.SetCellFormula("Sheet1", c09Cell0, formula); err != nil {
 			status = "unsettable"
@@ -376,6 +388,51 @@ func (p *c09Proc) run(idx int, formula string) (c09Result, bool) {
 	}
 	us, _ := strconv.ParseInt(w[5], 10, 64)
 	return c09Result{status: w[2], det: w[3] == "1", pure: w[4] == "1", micros: us}, true
+}
+
+// c09RunRaw evaluates jobs whose result is an opaque hex string (cyc); a dead worker yields
+// "CRASH:<class>" / "TIMEOUT"; after maxDead dead workers the remaining jobs are "SKIPPED".
+func c09RunRaw(jobs []c09Job, nw, maxDead int) []string {
+	outs := make([]string, len(jobs))
+	var next, dead atomic.Int64
+	var wg sync.WaitGroup
+	for w := 0; w < nw; w++ {
+		wg.Add(1)
+		go func() {
+			defer wg.Done()
+			var p *c09Proc
+			defer func() {
+				if p != nil {
+					p.stop()
+				}
+			}()
+			for {
+				lo := int(next.Add(64)) - 64
+				if lo >= len(jobs) {
+					return
+				}
+				for i := lo; i < lo+64 && i < len(jobs); i++ {
+					if dead.Load() >= int64(maxDead) {
+						outs[i] = "SKIPPED"
+						continue
+					}
+					if p == nil {
+						p = c09Start()
+					}
+					res, alive := p.run(i, jobs[i].Formula)
+					if !alive {
+						p = nil
+						dead.Add(1)
+						outs[i] = strings.ToUpper(strings.Replace(res.status, "crash:", "CRASH:", 1))
+						continue
+					}
+					outs[i] = unhx(res.status)
+				}
+			}
+		}()
+	}
+	wg.Wait()
+	return outs
 }
 
 type c09Failure struct {
